@@ -86,10 +86,35 @@ reg("C12", ["c12_slip.c"], level="fault_enumeration",
     exhaustive={"quick": "all strings of length <= 7 over the 5-symbol alphabet in all three uses and 8 configurations",
                 "thorough": "all strings of length <= 9 over the 5-symbol alphabet in all three uses and 8 configurations"})
 
+reg("C17", ["c17_endpoints.c"], level="fault_enumeration",
+    rule="'exact': every driver behaviour script of length <= 5 (quick) / <= 8 (thorough) over {1, 0, EINTR, EAGAIN, "
+         "hard error} for octet-style and {1, 2, k=3, all asked, 0, EINTR, EAGAIN, hard error} for chunk-style "
+         "drivers (after the script the driver moves everything asked), for N = 1..6, through source_get_chunk, "
+         "sink_put_chunk and both at-most variants; 'invalid': N = 0 and N > SSIZE_MAX; 'plumb': every pair of "
+         "source and sink scripts up to length 3 (thorough 4) over {1, 2, all, hard error} x N = 1..6 x stream "
+         "longer/shorter than N x 4 driver-style combinations x sink error EIO/ENOMEM, through sts_cbc, sts_n_cbc, "
+         "sts_drain_cbc, sts_n, sts_drain and the four _aux variants with empty auxiliary buffers of size 1..4 in "
+         "a poisoned arena; 'random': long transfers with random scripts. A signature is a distinct short script "
+         "(pair) or a (generator, unit); evaluations counts (script, N, entry point) executions.",
+    assumptions=["the getbuffer extension has no implementer and no documented contract in the tree; it is not exercised",
+                 "plumbing scripts use partial transfers and hard errors only (zero-length/EINTR returns are exercised on the chunk API, where the statement places them)",
+                 "the auxiliary buffer's designated region is read as its free space; only empty auxiliary buffers are used"],
+    exhaustive={"quick": "all driver scripts up to length 5 for N = 1..6 on the exact and at-most entry points",
+                "thorough": "all driver scripts up to length 8 for N = 1..6 on the exact and at-most entry points"})
+
 SAN_NOTE = ("Trusted: gcc 12 ASan/UBSan runtime, the harness' reference model, the fork-per-unit runner. "
             "Assumes little-endian x86-64; decides only the executions listed in the evidence file.")
 
 MANIFEST_TEXT = {
+    "C17": dict(
+        technique="runtime monitoring: exhaustive fault-script enumeration with scripted, logging source/sink drivers; outcome oracle + in-driver pointer/count assertions + call-count progress bound; ASan/UBSan",
+        text="Every short behaviour script of partial transfers, zero-length returns, EINTR/EAGAIN and hard errors is "
+             "played by octet- and chunk-style drivers on both sides; the oracle checks that exactly the next N "
+             "stream octets arrive in order, that the driver is always handed base+moved and never asked beyond the "
+             "remaining count, that hard errors come back unchanged without a retry, and that no entry point spins "
+             "(bound on driver calls). Plumbing functions are checked for exact counts, prefix property and "
+             "untouched auxiliary-buffer surroundings.",
+        note=SAN_NOTE),
     "C12": dict(
         technique="runtime monitoring: exhaustive small-alphabet execution with fault-injecting source/sink drivers, reference SLIP encoder/decoder and frame-level resynchronisation checker, ASan/UBSan",
         text="All control-character strings up to the bound are executed as payload, as raw decoder input and as "
